@@ -18,9 +18,7 @@ def _make_subclasses_tree(cl: type) -> list[type]:
 
 def _has_subclasses(cl: type, given_subclasses: tuple[type, ...]) -> bool:
     """Whether the given class has subclasses from `given_subclasses`."""
-    actual = set(cl.__subclasses__())
-    given = set(given_subclasses)
-    return bool(actual & given)
+    return any(c is not cl and issubclass(c, cl) for c in given_subclasses)
 
 
 def _get_union_type(cl: type, given_subclasses_tree: tuple[type]) -> type | None:
